@@ -27,18 +27,33 @@ fn failing_input(id: usize) -> Vec<u8> {
     }
 }
 
-fn msg_id(d: &[u8]) -> String {
-    let s = String::from_utf8_lossy(d);
-    if s.ends_with("Spurious dot in a label") { "0".into() }
-    else if s.ends_with("Label too long") { "1".into() }
-    else if s.ends_with("Name too long") { "2".into() }
-    else if s.ends_with("Non-ASCII character in a label") { "3".into() }
-    else if s == "Parse error" { "4".into() }
-    else if s == "Packet too large" { "5".into() }
-    else if s.ends_with("A non-empty name cannot start with a NUL byte") { "6".into() }
-    else if s.ends_with("Empty name") { "7".into() }
-    else if s.ends_with("A DNS packet can only contain up to one question") { "8".into() }
-    else { format!("?{}", crate::msg::hex(d)) }
+/// the description each failure kind produces, learnt on a fresh thread (kind k fails, its description is read at once):
+/// the schedules identify descriptions by kind, so rewording a message changes nothing
+fn calibrate() -> Vec<Vec<u8>> {
+    std::thread::spawn(|| {
+        let t = fn_table();
+        let mut table = vec![];
+        for id in 0..9usize {
+            let mut err: *const CErr = std::ptr::null();
+            if id >= 4 {
+                fail_other(&t, id, &mut err);
+            } else {
+                let n = failing_input(id);
+                let mut raw = [0u8; 256];
+                let mut len: libc::size_t = 0;
+                unsafe { (t.raw_name_from_str)(&mut raw, &mut len, &mut err, n.as_ptr() as *const c_char, n.len()) };
+            }
+            table.push(if err.is_null() { vec![] } else { unsafe { CStr::from_ptr((t.error_description)(err)) }.to_bytes().to_vec() });
+        }
+        table
+    }).join().unwrap_or_default()
+}
+
+fn msg_id(table: &[Vec<u8>], d: &[u8]) -> String {
+    match table.iter().position(|x| !x.is_empty() && x.as_slice() == d) {
+        Some(k) => format!("{}", k),
+        None => format!("?{}", crate::msg::hex(d)),
+    }
 }
 
 /// failure kinds 4.. : failures other table entries report (record text, size limit, rename arguments, second question)
@@ -62,7 +77,7 @@ fn fail_other(t: &FnTable, id: usize, err: &mut *const CErr) -> i32 {
     }
 }
 
-fn worker(rx: Receiver<Cmd>, tx: Sender<String>) {
+fn worker(rx: Receiver<Cmd>, tx: Sender<String>, table: std::sync::Arc<Vec<Vec<u8>>>) {
     let t = fn_table();
     let mut err: *const CErr = std::ptr::null();
     loop {
@@ -113,7 +128,7 @@ fn worker(rx: Receiver<Cmd>, tx: Sender<String>) {
                     tx.send("none".into()).unwrap();
                 } else {
                     let d = unsafe { CStr::from_ptr((t.error_description)(err)) }.to_bytes().to_vec();
-                    tx.send(msg_id(&d)).unwrap();
+                    tx.send(msg_id(&table, &d)).unwrap();
                 }
             }
             Ok(Cmd::Quit) | Err(_) => break,
@@ -124,6 +139,7 @@ fn worker(rx: Receiver<Cmd>, tx: Sender<String>) {
 /// `errslots <nthreads> <step>…` with steps `<tid>f<msgid>` and `<tid>r`
 pub fn run_errslots(words: &[&str]) -> String {
     let n: usize = words[0].parse().unwrap();
+    let table = std::sync::Arc::new(calibrate());
     let mut txs = vec![];
     let mut rxs = vec![];
     let mut handles = vec![];
@@ -131,7 +147,7 @@ pub fn run_errslots(words: &[&str]) -> String {
         let (ctx, crx) = channel::<Cmd>();
         let (rtx, rrx) = channel::<String>();
         // small stacks: schedules with a few hundred threads must fit the address-space cap the checks run under
-        handles.push(std::thread::Builder::new().stack_size(256 * 1024).spawn(move || worker(crx, rtx)).expect("spawn"));
+        handles.push(std::thread::Builder::new().stack_size(256 * 1024).spawn({ let tb = table.clone(); move || worker(crx, rtx, tb) }).expect("spawn"));
         txs.push(ctx);
         rxs.push(rrx);
     }
